@@ -26,7 +26,7 @@ for m in muts:
         for o, n in edits:
             s = s.replace(o, n, m.get("count", 1))
         open(fp, "w").write(s)
-        env = dict(os.environ, ROPE_SRC=d, VERIF_REEXEC="0", VERIF_NOSHRINK="1")
+        env = dict(os.environ, ROPE_SRC=d, VERIF_REEXEC="0", VERIF_NOSHRINK="1", VERIF_REPLAY_DIR=os.path.join(d, "replays"))
         env.pop("PYTHONPATH", None)
         r = subprocess.run([os.path.join(HERE, "check"), pid, "--scale", scale, "--no-evidence"], env=env, capture_output=True, text=True)
         buckets = [l for l in r.stdout.splitlines() if l.startswith("violation bucket") or l.startswith("fixed finding")]
